@@ -427,7 +427,40 @@ def rule_accounting(ctx, r):
                 if pp and cp and base(pp[0]) == base(cp[0]) and (fieldname in base(pp[0]) or "as_mut" in base(pp[0])):
                     return True
             return False
+        def pair_form(ptrv, cntv, fieldname):
+            """(ptr, count) taken as the two components of ONE map_or((null, 0), |s| (s.as_ptr(), s.len() as c_uint)) on `fieldname`"""
+            def strip(t):
+                while t and t[0] == "cast":
+                    t = t[1]
+                return t
+            pv, cv = strip(ptrv), strip(cntv)
+            if not (pv[0] == "field" and cv[0] == "field" and pv[1] == cv[1] and str(pv[2]) == "0" and str(cv[2]) == "1"):
+                return False
+            m = pv[1]
+            if not (m[0] == "call" and m[1].endswith("map_or") and len(m[2]) == 3):
+                return False
+            opt, dflt, clo = m[2]
+            if not any((st[0] == "field" and st[1] == P(1) and st[2] == fieldname) or (st[0] == "fld" and st[2] == fieldname) for st in paths.subterms(opt)):
+                return False
+            if not (dflt[0] == "tuple" and len(dflt[1]) == 2 and dflt[1][0][0] in ("call", "pure") and str(dflt[1][0][1]).split("::")[-1] in ("null", "null_mut")
+                    and is_const(dflt[1][1]) and const_val(dflt[1][1]) == 0):
+                return False
+            cf = c.fns.get(clo[1]) if clo[0] == "closure" else None
+            if cf is None:
+                return False
+            okc = False
+            for y in paths.Evaluator(c, extra_crates=[mo]).run(cf):
+                if y.outcome[0] != "return" or not y.ret or y.ret[0] != "tuple" or len(y.ret[1]) != 2:
+                    return False
+                p0, n0 = strip(y.ret[1][0]), strip(y.ret[1][1])
+                if not (p0[0] == "call" and p0[1].endswith(("::as_ptr", "::as_mut_ptr")) and n0[0] == "len"):
+                    return False
+                # both derive from the closure's argument
+                okc = paths.term_contains(p0, lambda q: q == P(2)) and paths.term_contains(n0, lambda q: q == P(2))
+            return okc
         for ptrf, cntf in (("next_in", "avail_in"), ("next_out", "avail_out")):
+            if pair_form(d[ptrf], d[cntf], ptrf):
+                continue
             a, b = src_of(d[ptrf]), src_of(d[cntf])
             if a or b:
                 if not a or not b or a[0] != ptrf or b[0] != ptrf or a[1] != "ptr" or b[1] != "len" or not (is_const(b[2]) and const_val(b[2]) == 0):
